@@ -245,7 +245,7 @@ def run(ctx):
                           "events": _history(rng)})
             i += 1
     kpool = []
-    for dims, keep in (((1, 1, 1), 1.0), ((2, 1, 1), 1.0), ((2, 2, 1), 0.7), ((2, 2, 2), 0.6)) + ((((3, 2, 2), 0.8),) if thorough else ()):
+    for dims, keep in (((1, 1, 1), 1.0), ((2, 1, 1), 1.0), ((2, 2, 1), 0.7), ((2, 2, 2), 0.6)) + ((((2, 2, 2), 0.8), ((3, 1, 1), 1.0), ((2, 2, 1), 1.0)) if thorough else ()):      # (a 3x2x2 grid - 72 cells - took TLC more than an hour per case)
         for rep in range(3 if thorough else 2):
             P, C = kuhn(rng, *dims, keep=keep)
             if C:
@@ -280,7 +280,8 @@ def run(ctx):
         cases.append({"id": "cover-%d" % i, "given": dict(base["given"], family="cache-cover"), "events": [{"op": q} for q in h]})
     obs = ctx.execute("c03", "exec_case", cases, chunksize=16)
     for fam, pref in (("T-enum", "T-"), ("K", "K-"), ("cache-cover", "cover-")):
-        ctx.judge("C03_Trace", "C03_Trace.cfg", [c for c in obs if c["id"].startswith(pref)], fam, "c03", "exec_case", batch_events=800)
+        # the Kuhn cases are large (up to 70 cells): one case per TLC run, so that the 16 validators share them evenly
+        ctx.judge("C03_Trace", "C03_Trace.cfg", [c for c in obs if c["id"].startswith(pref)], fam, "c03", "exec_case", batch_events=30 if fam == "K" else 800)
     ctx.exhaustive = False
     ctx.assumptions += [
         "family T is exhaustive up to the TetEnum bounds; embeddings are random generic lattice points (cells may overlap geometrically: orientation tests are per cell)",
